@@ -12,7 +12,12 @@ RULE = ("TLC enumerates every environment behaviour of TxImpl.tla (the transactO
         "rollback fails); in two further enumerations every fault point answers with every error VALUE of a "
         "list (ordinary error, driver.ErrBadConn, sql.ErrTxDone, sql.ErrNoRows, context.Canceled, ...), and the "
         "caller's context of TransactCtx is cancelled / expires before the call or after k statements of the "
-        "body (k = all: just before the deferred commit/rollback). Each script is replayed on the real sqlx.SqlConn / sqlc.CachedConn Transact[Ctx] over "
+        "body (k = all: just before the deferred commit/rollback). A fourth enumeration ranges over the VALUE the "
+        "body panics with (24 kinds: errors of several identities incl. breaker-acceptable sentinels, a wrapped one, a "
+        "nil pointer of an error type, panic(nil); strings incl. the empty one, a fmt.Stringer; and values that are "
+        "neither: int, 0, a named int, false, float, struct, pointer, typed nil pointer, slice, map, func, chan) and "
+        "over unusual shapes of the error it returns (caller's struct type, typed nil pointer, %w-wrapped, "
+        "errors.Join), after every body of <= 2 statements, with commit/rollback succeeding or failing. Each script is replayed on the real sqlx.SqlConn / sqlc.CachedConn Transact[Ctx] over "
         "a harness database/sql driver that injects exactly these faults and logs what the database saw; "
         "seeded multi-call sequences (shared breaker/pool, breaker storms) and concurrent transactions are "
         "added; every recorded trace is validated by TLC against TxOnce.tla. "
@@ -26,7 +31,8 @@ BIND = "zz_verif_tx_test.go"
 
 APIS = ["sqlx.Transact", "sqlx.TransactCtx", "sqlc.Transact", "sqlc.TransactCtx"]
 CTORS = ["fromdb", "named"]
-BUGS = ["panicSwallowed", "commitErrDropped", "ctxDoneNoEnd", "retryOnBadConn",      # quick: the first three
+BUGS = ["panicSwallowed", "commitErrDropped", "ctxDoneNoEnd", "panicValueLost",      # quick: the first four
+        "retryOnBadConn", "panicRethrown",
         "commitOnAcceptable", "rollbackIfStmtFailed", "panicNotRecovered", "rollbackErrDropped",
         "commitOnErr", "noEndOnErr", "bodyWithoutBegin", "ctxDoneRollback"]
 CTX_APIS = ["sqlx.TransactCtx", "sqlc.TransactCtx"]      # only these take a caller context
@@ -90,6 +96,16 @@ def _observed(events):
 
 def _has_ctx(sc):
     return sc["script"]["cx"]["at"] != "none"
+
+
+OLD_PANICS = ("str", "err", "rt")
+OLD_ERRS = ("plain", "norows", "notfound", "canceled", "txdone", "bad", "deadline")
+
+
+def _has_val(sc):
+    """does the body panic, or return an error of one of the unusual shapes?"""
+    s = sc["script"]
+    return s.get("end") == "panic" or (s.get("end") == "err" and s.get("ek") not in OLD_ERRS)
 
 
 def _has_ids(sc):
@@ -213,8 +229,17 @@ def check(run):
     run.model_check(FAM, "TxOnceMC", "TxOnceMCU.cfg", workers=2,
                     note="two calls, ANY number of statements / failed begins (history hidden by VIEW): StateInv")
     run.model_check(FAM, "TxImpl", "TxImplMCU.cfg", workers=2,
-                    note="algorithm with bodies of ANY length (script+history hidden by VIEW): NoDeviation, StateInv")
-    for b in (BUGS if thorough else BUGS[:3]):
+                    note="algorithm with bodies of ANY length (statements+history hidden by VIEW), ending in every way: "
+                         "every error kind / every panic VALUE kind (24): NoDeviation, StateInv, PanicValueBlind")
+    if thorough:
+        run.model_check(FAM, "TxImpl", "TxImplMCpanic.cfg", workers=4,
+                        note="the algorithm with the body panicking with a value of EVERY kind (24: errors, texts, and "
+                             "values that are neither) / returning errors of unusual shapes, <=2 stmts x 4 kinds, error "
+                             "identities at statements and commit/rollback: all invariants + PanicValueBlind")
+        run.model_check(FAM, "TxImpl", "TxImplOldDomain_panicValueLost.cfg", workers=1,
+                        note="why the domain matters: the seeded defect 'panicValueLost' satisfies NoDeviation when bodies "
+                             "panic only with a string, an error or a runtime error")
+    for b in (BUGS if thorough else BUGS[:4]):
         run.model_check(FAM, "TxImpl", "TxImplBug_%s.cfg" % b, workers=1, expect="violation",
                         note="seeded defect '%s' violates NoDeviation" % b)
     if thorough:
@@ -255,8 +280,18 @@ def check(run):
         apis = CTX_APIS if (not thorough or len(sc["script"]["stmts"]) < 3) else [CTX_APIS[k % 2]]
         for j, api in enumerate(apis):
             cases.append({"api": api, "ctor": CTORS[(k // 2 + j) % 2], "script": sc["script"], "pred": sc["pred"]})
+    # ---- the value the body panics with (any Go value) / the shape of the error it returns
+    vals = [sc for sc in (_norm(b) for b in run.generate(FAM, "TxImpl", "TxImplGenPanicX.cfg" if thorough else "TxImplGenPanic2.cfg"))
+            if _has_val(sc)]
+    seen = {}
+    for sc in vals:                             # one api each, rotating over all four WITHIN each kind of value
+        key = (sc["script"]["end"], sc["script"]["ek"])
+        k = seen[key] = seen.get(key, -1) + 1
+        k += run.seed
+        cases.append({"api": APIS[k % 4], "ctor": CTORS[(k // 4) % 2], "script": sc["script"], "pred": sc["pred"]})
     run.extra["scripts"] = {"fault_placement": len(beh if thorough else beh2),
-                            "error_identity": len(errs), "caller_context": len(ctxs)}
+                            "error_identity": len(errs), "caller_context": len(ctxs), "panic_value_error_shape": len(vals)}
+    run.extra["panic_value_kinds"] = sorted({sc["script"]["ek"] for sc in vals if sc["script"]["end"] == "panic"})
     # ---- the real code: every script replayed + (code -> spec) multi-call sequences on one
     # connection object, breaker storms and concurrent transactions; TLC validates every trace
     _drive(run, cases)
@@ -273,12 +308,17 @@ LEVEL_TEXT = ("Exhaustive TLC model checking of the transaction algorithm agains
               "conformance: every TLC-enumerated fault script (quick: 3085 scripts with bodies <= 2 statements, thorough: 21607 scripts with bodies <= 3; each on 2-4 of the 4 APIs, both constructors; plus the scripts of the "
               "error-identity enumeration (quick 2096: 4 error values x every fault point, bodies <= 2; thorough ~25000: 8 error values) "
               "on one API each and of the caller-context enumeration (quick 930, thorough ~6500: context cancelled / deadline-expired "
-              "before the call and after each k statements) on both TransactCtx APIs; measured counts in coverage.scripts) is executed on the real "
+              "before the call and after each k statements) on both TransactCtx APIs, and of the panic-value / error-shape "
+              "enumeration (quick 1736: 24 kinds of panic value + 4 error shapes after every body of <= 2 statements of 3 kinds, "
+              "commit/rollback ok or failing; thorough 4788: 4 statement kinds, 2 error values of a failing rollback) on one API "
+              "each; measured counts in coverage.scripts) is executed on the real "
               "Transact/TransactCtx of sqlx.SqlConn and sqlc.CachedConn over a fault-injecting database/sql driver "
               "and the recorded events are validated by TLC against TxOnce.tla.")
 LEVEL_NOTE = ("Trusted: TLC/SANY, Go toolchain and database/sql, the harness driver's event order. Bodies longer than the "
-              "bound are sampled (random sequences, <= 6 statements, random error values, context ending in one call "
-              "of five). Not injected: panics inside the driver, a context ending while a driver call is in flight.")
+              "bound are sampled (random sequences, <= 6 statements, random error values, random panic values of the 24 kinds, "
+              "context ending in one call of five). Panic values are representatives of their kind (one int, one struct ...); "
+              "not tried: values whose formatting does not terminate (cyclic structures), runtime.Goexit in the body "
+              "(neither a return nor a panic). Not injected: panics inside the driver, a context ending while a driver call is in flight.")
 TECHNIQUE = "TLA+ spec (TxOnce/TxImpl), TLC exhaustive fault enumeration, replay on real code, TLC trace validation"
 DESIGN_REF = "DESIGN.md Part B C14"
 
